@@ -108,8 +108,8 @@ func idxOf(tab []string, s string) int {
 const c16Base = 4
 
 func init() {
-	for i := 0; i < 460; i++ {
-		c16Addrs = append(c16Addrs, fmt.Sprintf("h%03d", i))
+	for i := 0; i < 1200; i++ {
+		c16Addrs = append(c16Addrs, fmt.Sprintf("h%04d", i))
 	}
 }
 
@@ -278,7 +278,7 @@ func c16Case(c *Ctx, steps []c16Step, nAddr int) error {
 
 func genC16(c *Ctx) error {
 	c.ShardSize = 40
-	c.Notes["rule"] = "histories of 10-30 steps over all 7 balance kinds (createIndex is called by the kind's name) x 4 addresses x 4 tokens (names that are prefixes of each other, the empty token): transactions of 1-4 put/add/sub/move operations through the tx/batch caches or on a raw stub, committed or discarded, now and then followed in the SAME batch by a second transaction that takes everything back; optional legacy primaries written without inverse entries; createIndex via Invoke; every owners listing is followed by direct balance.Get of every address. Plus ledgers with 210-460 legacy holders of one kind (among the first ones also token-less balances), indexed and listed. Non-trivial: at least one inverse entry exists at the end."
+	c.Notes["rule"] = "histories of 10-30 steps over all 7 balance kinds (createIndex is called by the kind's name) x 4 addresses x 4 tokens (names that are prefixes of each other, the empty token): transactions of 1-4 put/add/sub/move operations through the tx/batch caches or on a raw stub, committed or discarded, now and then followed in the SAME batch by a second transaction that takes everything back; optional legacy primaries written without inverse entries; createIndex via Invoke; every owners listing is followed by direct balance.Get of every address. Plus ledgers with 210-460 legacy holders of one kind (among the first ones also token-less balances), indexed and listed, one of them with 1001-1120 holders of ONE token. Non-trivial: at least one inverse entry exists at the end."
 	rng := c.Rng
 	n := c.N(240, 6000)
 	for i := 0; i < n; i++ {
@@ -371,12 +371,19 @@ func genC16(c *Ctx) error {
 	}
 	// ledgers with many holders: 210-460 legacy primaries of one kind (tokens and, among the first ones, token-less
 	// balances), then createIndex, owners listings and direct reads; then ordinary traffic and another listing
-	for i := c.N(1, 8); i > 0; i-- {
+	for i := c.N(2, 9); i > 0; i-- {
 		kind := rng.Intn(len(c16Kinds))
 		nh := 210 + rng.Intn(251)
+		if i == 1 {
+			nh = 1001 + rng.Intn(120) // more holders of ONE token than any page a listing might be read in
+			c.Count("ledger_with_more_than_1000_holders_of_one_token")
+		}
 		var steps []c16Step
 		for a := 0; a < nh; a++ {
 			tk := 1 + rng.Intn(2)
+			if i == 1 {
+				tk = 1
+			}
 			steps = append(steps, c16Step{Kind: "legacy", Key: c16Key{kind, c16Base + a, tk}, Amt: int64(1 + rng.Intn(90))})
 			if a < 40 && rng.Intn(6) == 0 {
 				steps = append(steps, c16Step{Kind: "legacy", Key: c16Key{kind, c16Base + a, 0}, Amt: int64(1 + rng.Intn(90))})
